@@ -160,3 +160,27 @@ Proof.
   - rewrite Huv, !memZ_app in Hstop. apply orb_false_iff in Hstop as [_ Hstop].
     apply orb_false_iff in Hstop as [Hstop _]. exact Hstop.
 Qed.
+
+(* the known-start digest is the cds_start_NF digest plus Met-removed forms of N-terminal products:
+   nothing is lost by knowing the start, and every extra product q sits right after the initial M *)
+Theorem cleave_nf_subset wt water lim r exc s p :
+  In p (cleave wt water lim r exc true s) -> In p (cleave wt water lim r exc false s).
+Proof.
+  rewrite !cleave_spec. intros (pre & a & rest & b & HB & Hb & Hk & Hp).
+  exists pre, a, rest, b. repeat split; auto.
+  destruct Hp as [Hp|(_ & Hnf & _)]; [left; exact Hp | discriminate Hnf].
+Qed.
+
+Theorem cleave_known_start_extra wt water lim r exc s p :
+  In p (cleave wt water lim r exc false s) -> ~ In p (cleave wt water lim r exc true s) ->
+  exists v, s = M_code :: p ++ v.
+Proof.
+  rewrite !cleave_spec. intros (pre & a & rest & b & HB & Hb & Hk & Hp) Hnot.
+  destruct Hp as [Hp|(Hpre & _ & HM & Hp)].
+  - exfalso. apply Hnot. exists pre, a, rest, b. repeat split; auto.
+  - subst pre. unfold bounds_of in HB. cbn [app] in HB. injection HB as Ha _. subst a.
+    unfold piece in HM, Hp. rewrite Nat.sub_0_r in HM, Hp. cbn [skipn] in HM, Hp.
+    destruct (firstn b s) as [|c q] eqn:E; [discriminate HM|]. cbn [tl] in Hp. subst p.
+    cbn [starts_with_M] in HM. apply Z.eqb_eq in HM. subst c.
+    exists (skipn b s). rewrite <- (firstn_skipn b s) at 1. rewrite E. reflexivity.
+Qed.
